@@ -1,6 +1,6 @@
 package main
 
-// Read-only peeks into unexported state, used only to (1) know when the vacuum goroutines are parked
+// Peeks into unexported state (read-only except installHookClock below), used only to (1) know when the vacuum goroutines are parked
 // and where their next timer deadlines are (MockClock.timers), and (2) report the sizes of the
 // accessor's maps and vacuum queues for the `stat` op.  Nothing is ever written through these.
 
@@ -89,4 +89,55 @@ func activeVacuums(acc *config.TxnPoliciesAccessor) int {
 		mu.RUnlock()
 	}
 	return n
+}
+
+// hookClock wraps the clock of the TRANSACTIONS vacuum.  MapVacuum.VacuumKey reads the clock after
+// setTxnVersion has written the anchor and released the accessor mutex and before setTxnVersion returns:
+// an armed hook runs there, on the caller's goroutine - a deterministic way to let a reload complete
+// exactly "while a new transaction is being anchored".
+type hookClock struct {
+	inner clock.Clock
+	mu    sync.Mutex
+	hook  func()
+}
+
+func (h *hookClock) fire() {
+	h.mu.Lock()
+	f := h.hook
+	h.hook = nil
+	h.mu.Unlock()
+	if f != nil {
+		f()
+	}
+}
+
+func (h *hookClock) arm(f func()) {
+	h.mu.Lock()
+	h.hook = f
+	h.mu.Unlock()
+}
+
+// disarm returns true if the hook was still armed (it did not fire).
+func (h *hookClock) disarm() bool {
+	h.mu.Lock()
+	defer h.mu.Unlock()
+	armed := h.hook != nil
+	h.hook = nil
+	return armed
+}
+
+func (h *hookClock) Now() time.Time                         { h.fire(); return h.inner.Now() }
+func (h *hookClock) Sleep(d time.Duration)                  { h.inner.Sleep(d) }
+func (h *hookClock) After(d time.Duration) <-chan time.Time { return h.inner.After(d) }
+func (h *hookClock) Since(t time.Time) time.Duration        { return h.inner.Since(t) }
+func (h *hookClock) Until(t time.Time) time.Duration        { return h.inner.Until(t) }
+
+// installHookClock replaces the clock field of the accessor's transactions vacuum (the only write the
+// harness ever makes into the implementation's private state; done once, right after construction).
+func installHookClock(acc *config.TxnPoliciesAccessor) *hookClock {
+	vac := peek(reflect.ValueOf(acc).Elem(), "txnVersionsVacuum").Elem()
+	f := peek(vac, "clock")
+	h := &hookClock{inner: f.Interface().(clock.Clock)}
+	f.Set(reflect.ValueOf(clock.Clock(h)))
+	return h
 }
